@@ -497,6 +497,9 @@ class Gen:
                     if g.chance(0.5):
                         nf['id'] = '%sxf%d-%d' % (ns, len(lex['entries']), j)
                     xe['forms'].insert(g.rng.randint(0, len(xe['forms'])), nf)
+            if g.chance(g.p.get('p_ext_entry_frames', 0.0)):
+                # (the library reads but does not use frames given inside an external entry)
+                xe['frames'] = [{'subcategorizationFrame': g.rng.choice(FRAMES), 'senses': None}]
             for bs in be.get('senses', []):
                 if bs.get('external'):
                     continue
@@ -835,3 +838,25 @@ def generate_deep(rng: random.Random, n=None) -> dict:
             'lexicons': {'deep:1': lex}, 'order': ['deep:1'],
             'resources': [{'name': 'r0', 'lmf_version': '1.0', 'lexicons': ['deep:1']}],
             'ili_files': []}
+
+
+def generate_huge_ili(rng: random.Random, m=40000) -> dict:
+    """A universe whose ILI index has more rows than SQLite has host parameters (the released
+    CILI has about 117000) while a small lexicon uses ILIs listed all over the file: at its
+    start, around every multiple of 32766/1000, and at its end."""
+    hot = sorted({p for b in (0, 999, 1000, 16383, 32765, 32766, 32767, m - 1)
+                  for p in (b - 1, b, b + 1) if 0 <= p < m})
+    lex = {'id': 'hl', 'version': '1', 'label': 'Huge index user', 'language': 'en',
+           'email': 'm@example.com', 'license': 'MIT', 'meta': None, 'extends': None,
+           'requires': [], 'entries': [], 'synsets': [], 'frames': []}
+    for k, p in enumerate(hot):
+        lex['synsets'].append({'id': 'hl-s%d' % k, 'ili': 'i%d' % (100000 + p),
+                               'partOfSpeech': 'n', 'meta': None, 'definitions': [],
+                               'relations': [], 'examples': []})
+    rows = [{'ili': 'i%d' % (100000 + p), 'status': ILI_STATUSES[p % len(ILI_STATUSES)],
+             'definition': 'gloss %d' % p} for p in range(m)]
+    return {'profile': {'huge_ili': m}, 'lexicons': {'hl:1': lex}, 'order': ['hl:1'],
+            'resources': [{'name': 'r0', 'lmf_version': '1.0', 'lexicons': ['hl:1']}],
+            'ili_files': [{'name': 'ili0', 'upper': False,
+                           'columns': ['ili', 'status', 'definition'], 'rows': rows,
+                           'crlf': False, 'extra_column': False}]}
